@@ -469,5 +469,7 @@ def finish(chk):
         checker_cmd="make theories/Props/C06.vo && coqc theories/Props/C06.v (Print Assumptions)",
         assumptions=["toposort package modelled as level-wise topological sort",
                      "names in a scope are unambiguous (legal Fortran) for the Spec comparison",
-                     "procedures inside modules have no USE statements, arguments or local variables "
-                     "(FORD shares the module's dictionaries with them: C07's domain)"])
+                     "nested scopes (module/internal procedures, interface bodies): FORD shares the module's "
+                     "dictionaries with them (C07's domain), so their dictionaries and those of their module are "
+                     "compared as lower bounds (every identifier the model / the Spec makes accessible by use "
+                     "association or from the module must be present with the right entity)"])
